@@ -64,6 +64,34 @@ def literal(rng, allow_neg=True, allow_frac=True):
         t = "-" + t
     return t
 
+def terminating_literal(rng):
+    """The exact decimal spelling of k / (2^a * 5^b): digit strings with a large power of two or five in them (1/8192 =
+    0.0001220703125, f32 epsilon 1.1920928955078125e-7). A reader that cancels common factors by hand only meets these when the
+    literal is generated from such a VALUE; a random digit string is a multiple of 5^13 once in a billion (seed C07-e)."""
+    a, b = rng.choice([(rng.randint(0, 70), 0), (0, rng.randint(0, 40)), (rng.randint(0, 40), rng.randint(0, 30))])
+    k = rng.choice([1, 1, 3, 7, rng.randint(1, 10 ** 6), rng.randint(1, 10 ** 20)])
+    places = max(a, b)
+    digits = str(k * 10 ** places // (2 ** a * 5 ** b)) if (k * 10 ** places) % (2 ** a * 5 ** b) == 0 else None
+    if digits is None:
+        return "1"
+    digits = digits.rjust(places + 1, "0")
+    t = digits[:-places] + "." + digits[-places:] if places else digits
+    x = rng.random()
+    if x < 0.3:
+        # the same value with the point moved and an exponent to compensate
+        sh = rng.randint(-12, 12)
+        body = t.replace(".", "")
+        pt = len(t.split(".")[0]) + sh
+        if 0 < pt < len(body):
+            t = body[:pt] + "." + body[pt:] + "e%d" % (-sh)
+        elif pt >= len(body):
+            t = body + "0" * (pt - len(body)) + "e%d" % (-sh)
+        else:
+            t = "0." + "0" * (-pt) + body + "e%d" % (-sh)
+    if rng.random() < 0.3:
+        t = "-" + t
+    return t
+
 def fraction_parts(rng):
     """(numerator, denominator) with a boundary numerator (often negative) over a small denominator, for monitors that
     spell `p / q`: reduced numerators of exactly +-2^63, +-2^64 ... survive only over odd denominators."""
